@@ -488,7 +488,9 @@ impl ArchiveIndex {
             let mut actual_arr = [0u8; 8];
             let copy_len = expected_hash.len().min(8);
             expected_arr[..copy_len].copy_from_slice(&expected_hash[..copy_len]);
-            actual_arr[..copy_len].copy_from_slice(&footer.footer_hash[..copy_len]);
+            // The stored hash may be shorter than 8 bytes when the length field is corrupt
+            let actual_len = copy_len.min(footer.footer_hash.len());
+            actual_arr[..actual_len].copy_from_slice(&footer.footer_hash[..actual_len]);
             return Err(ArchiveError::ChecksumMismatch {
                 expected: expected_arr,
                 actual: actual_arr,
@@ -1162,7 +1164,9 @@ impl ChunkedArchiveIndex {
             let mut actual_arr = [0u8; 8];
             let copy_len = expected_hash.len().min(8);
             expected_arr[..copy_len].copy_from_slice(&expected_hash[..copy_len]);
-            actual_arr[..copy_len].copy_from_slice(&footer.footer_hash[..copy_len]);
+            // The stored hash may be shorter than 8 bytes when the length field is corrupt
+            let actual_len = copy_len.min(footer.footer_hash.len());
+            actual_arr[..actual_len].copy_from_slice(&footer.footer_hash[..actual_len]);
             return Err(ArchiveError::ChecksumMismatch {
                 expected: expected_arr,
                 actual: actual_arr,
